@@ -3,8 +3,11 @@ package harness
 import (
 	"bytes"
 	"context"
+	"encoding/json"
 	"errors"
 	"fmt"
+	ocr2keepersv3 "github.com/smartcontractkit/chainlink-automation/pkg/v3"
+	"github.com/smartcontractkit/chainlink-automation/pkg/v3/types"
 	"log"
 	"os"
 	"runtime"
@@ -42,6 +45,11 @@ const (
 	// the result store's gc loop logs through the logger the operator hands to the factory; the harness's log
 	// writer panics on that line (result store = the restartable service kind: no StateMachine, latched close signal)
 	c18SiteGC = "resultStoreGC" // result store          : logger write in gc() (the service's own goroutine)
+	// the upkeep type getter the operator hands to the factory is user code too; it is called on background goroutines from
+	// three places (a panic there is raised INSIDE the stores' / coordinator's own critical sections)
+	c18SiteTGDequeue  = "typeGetter@dequeue"     // proposalQueue.Dequeue   (final conditional / final recovery flow, per queued proposal)
+	c18SiteTGMetadata = "typeGetter@metadata"    // metadataStore.AddProposals / RemoveProposals (proposal flows' post-processing)
+	c18SiteTGCoord    = "typeGetter@coordinator" // coordinator.ShouldProcess / FilterProposals  (every flow's pre-processing)
 	// v2 (OCR2) plugin: the report coordinator's log poll and the polling observer's registry call
 	c18SiteV2Perform  = "v2PerformLogs"
 	c18SiteV2Stale    = "v2StaleLogs"
@@ -51,7 +59,7 @@ const (
 	c18SiteV2Check    = "v2CheckUpkeep"  // polling observer : runner.CheckUpkeep (head task loop)
 )
 
-var c18Sites = []string{c18SiteLog, c18SiteRecov, c18SiteGetter, c18SiteEvents, c18SitePipeline, c18SitePost, c18SiteGC}
+var c18Sites = []string{c18SiteLog, c18SiteRecov, c18SiteGetter, c18SiteEvents, c18SitePipeline, c18SitePost, c18SiteGC, c18SiteTGDequeue, c18SiteTGMetadata, c18SiteTGCoord}
 var c18SitesV2 = []string{c18SiteV2Perform, c18SiteV2Stale, c18SiteV2CoordEnc, c18SiteV2Source, c18SiteV2ObsEnc, c18SiteV2Check}
 
 const c18GCLine = "Garbage collecting result store"
@@ -202,11 +210,14 @@ func (p *c18Probe) pipelineDoneAfterLastPanic() bool {
 }
 
 type c18LogProvider struct {
-	p    *c18Probe
-	work int // payloads handed out per call
-	seq  atomic.Uint64
-	rng  *Rng
-	mu   sync.Mutex
+	p      *c18Probe
+	work   int  // payloads handed out per call
+	repeat bool // the same upkeeps / work ids on every call (block number fixed, block hash new each time: the runner's cache
+	// shortcut does not apply, the pipeline is asked again about a work id it has answered before)
+	ids []ocr2keepers.UpkeepIdentifier
+	seq atomic.Uint64
+	rng *Rng
+	mu  sync.Mutex
 }
 
 func (f *c18LogProvider) GetLatestPayloads(context.Context) ([]ocr2keepers.UpkeepPayload, error) {
@@ -218,6 +229,16 @@ func (f *c18LogProvider) GetLatestPayloads(context.Context) ([]ocr2keepers.Upkee
 	defer f.mu.Unlock()
 	out := make([]ocr2keepers.UpkeepPayload, 0, f.work)
 	for i := 0; i < f.work; i++ {
+		if f.repeat {
+			for len(f.ids) <= i {
+				f.ids = append(f.ids, genUpkeepID(f.rng, true))
+			}
+			// same log (tx hash, index) => same work id; the check block hash differs from call to call
+			trig := ocr2keepers.Trigger{BlockNumber: 100, BlockHash: genHash(f.rng), LogTriggerExtension: &ocr2keepers.LogTriggerExtension{
+				TxHash: [32]byte{byte(i + 1)}, Index: uint32(i), BlockHash: [32]byte{8}, BlockNumber: 99}}
+			out = append(out, ocr2keepers.UpkeepPayload{UpkeepID: f.ids[i], Trigger: trig, WorkID: wg(f.ids[i], trig)})
+			continue
+		}
 		uid := genUpkeepID(f.rng, true)
 		res := genResult(f.rng, uid, 100+f.seq.Add(1))
 		out = append(out, ocr2keepers.UpkeepPayload{UpkeepID: uid, Trigger: res.Trigger, WorkID: res.WorkID})
@@ -228,18 +249,35 @@ func (f *c18LogProvider) SetConfig(ocr2keepers.LogEventProviderConfig) {}
 func (f *c18LogProvider) Start(context.Context) error                  { return nil }
 func (f *c18LogProvider) Close() error                                 { return nil }
 
-type c18Events struct{ p *c18Probe }
+type c18Events struct {
+	p       *c18Probe
+	perform []ocr2keepers.TransmitEvent // confirmed perform events reported on every poll (for the repeating work ids)
+}
 
 func (f *c18Events) GetLatestEvents(context.Context) ([]ocr2keepers.TransmitEvent, error) {
 	f.p.hit(c18SiteEvents)
-	return nil, nil
+	return f.perform, nil
 }
 
-type c18Recov struct{ p *c18Probe }
+type c18Recov struct {
+	p    *c18Probe
+	work bool // hand out one recoverable log payload per call (drives the recovery proposal flow into the metadata store)
+	rng  *Rng
+	mu   sync.Mutex
+	seq  uint64
+}
 
 func (f *c18Recov) GetRecoveryProposals(context.Context) ([]ocr2keepers.UpkeepPayload, error) {
 	f.p.hit(c18SiteRecov)
-	return nil, nil
+	if !f.work {
+		return nil, nil
+	}
+	f.mu.Lock()
+	defer f.mu.Unlock()
+	f.seq++
+	uid := genUpkeepID(f.rng, true)
+	res := genResult(f.rng, uid, 200+f.seq)
+	return []ocr2keepers.UpkeepPayload{{UpkeepID: uid, Trigger: res.Trigger, WorkID: res.WorkID}}, nil
 }
 
 type c18Getter struct{ p *c18Probe }
@@ -252,6 +290,8 @@ func (f *c18Getter) GetActiveUpkeeps(context.Context) ([]ocr2keepers.UpkeepPaylo
 // c18Pipeline answers CheckUpkeeps after a virtual latency; results are
 // well-formed, eligible or (for the post-processing site) ineligible.
 type c18Pipeline struct {
+	shape      string
+	calls      atomic.Int64
 	p          *c18Probe
 	latency    time.Duration
 	honorCtx   bool
@@ -274,6 +314,7 @@ func (f *c18Pipeline) CheckUpkeeps(ctx context.Context, ps ...ocr2keepers.Upkeep
 			time.Sleep(f.latency)
 		}
 	}
+	n := f.calls.Add(1)
 	out := make([]ocr2keepers.CheckResult, len(ps))
 	for i, p := range ps {
 		out[i] = ocr2keepers.CheckResult{Eligible: !f.ineligible, UpkeepID: p.UpkeepID, Trigger: p.Trigger, WorkID: p.WorkID,
@@ -281,9 +322,52 @@ func (f *c18Pipeline) CheckUpkeeps(ctx context.Context, ps ...ocr2keepers.Upkeep
 		if f.ineligible {
 			out[i].IneligibilityReason = 1
 		}
+		// RESULT SHAPES (the pipeline is user code: what it returns is a fault dimension like its panics)
+		switch f.shape {
+		case "ext-flip": // the trigger's log extension present / absent in turn (same work id when the provider repeats)
+			if n%2 == 1 {
+				out[i].Trigger.LogTriggerExtension = nil
+			}
+		case "ext-drop":
+			out[i].Trigger.LogTriggerExtension = nil
+		case "block-down": // answers on ever lower check blocks
+			if b := uint64(p.Trigger.BlockNumber); b > uint64(n) {
+				out[i].Trigger.BlockNumber = ocr2keepers.BlockNumber(b - uint64(n))
+			}
+		case "block-huge":
+			out[i].Trigger.BlockNumber = ocr2keepers.BlockNumber(^uint64(0) - uint64(n%3))
+		case "foreign": // every result carries the first payload's work id / upkeep
+			out[i].WorkID, out[i].UpkeepID = ps[0].WorkID, ps[0].UpkeepID
+		case "odd-flags": // inconsistent but legal flag combinations
+			out[i].Retryable = n%2 == 0
+			out[i].IneligibilityReason = uint8(n % 7)
+			out[i].PipelineExecutionState = uint8(n % 3)
+			out[i].RetryInterval = time.Duration(n%4) * time.Second
+		case "nil-fields":
+			out[i].FastGasWei, out[i].LinkNative, out[i].PerformData = nil, nil, nil
+		case "empty-workid":
+			out[i].WorkID = ""
+		}
+	}
+	switch f.shape {
+	case "short": // fewer results than payloads
+		if len(out) > 0 {
+			out = out[:len(out)-1]
+		}
+	case "long": // one result too many
+		if len(out) > 0 {
+			out = append(out, out[0])
+		}
+	case "nil-nil":
+		return nil, nil
+	case "results-and-error":
+		return out, errors.New("c18: pipeline error with results")
 	}
 	return out, nil
 }
+
+// c18Shapes: the pipeline result shapes of the "shape" dimension ("" = the well-behaved echo)
+var c18Shapes = []string{"ext-flip", "ext-drop", "block-down", "block-huge", "foreign", "odd-flags", "nil-fields", "empty-workid", "short", "long", "nil-nil", "results-and-error"}
 
 var c18BigOne = strBig(func() *string { s := "1"; return &s }())
 
@@ -316,8 +400,9 @@ type c18Sys struct {
 	// panic site belongs to (a flow is not its own "other")
 	flowRep      map[string]string
 	flowOf       map[string]string
-	progressSite string         // the check-pipeline call of this family: an open instance with work must get through to it
-	firstClose   map[string]int // factory reuse: what closing the first instance returned (enum counts; "panic" if it panicked)
+	round        func(seq uint64) error // one foreground OCR round on the instance under test (nil: the family has none here)
+	progressSite string                 // the check-pipeline call of this family: an open instance with work must get through to it
+	firstClose   map[string]int         // factory reuse: what closing the first instance returned (enum counts; "panic" if it panicked)
 }
 
 // c18SafeClose calls a Close and turns a panic out of it into a value
@@ -342,7 +427,9 @@ func c18SafeClose(f func() error) (err error, panicked string) {
 // shared fakes see afterwards — from either instance — is attributed to the case.
 func c18Build(in c18Input, pr *c18Probe, mk func(cfg string) func() error) (close func() error, first map[string]int) {
 	cfg2 := `{}`
-	if in.ReuseCfg == "diff" {
+	if in.Offchain != "" {
+		cfg2 = in.Offchain // the off-chain configuration of the instance under test (value-domain dimension)
+	} else if in.ReuseCfg == "diff" {
 		cfg2 = `{"performLockoutWindow":100000,"minConfirmations":1,"maxUpkeepBatchSize":3,"gasLimitPerReport":4000000}`
 	}
 	closeFirst := func(c func() error) map[string]int {
@@ -389,13 +476,43 @@ func (s *c18Sys) othersOf(site string) []string {
 
 func newC18V3Sys(t testing.TB, in c18Input) *c18Sys {
 	n := newC18Node(t, in)
-	return &c18Sys{probe: n.Probe, close: n.Close, firstClose: n.First, progressSite: c18SitePipeline, subs: n.Blocks.NumSubs, stopEnv: func() {}, sites: c18Sites,
+	return &c18Sys{probe: n.Probe, close: n.Close, round: n.Round, firstClose: n.First, progressSite: c18SitePipeline, subs: n.Blocks.NumSubs, stopEnv: func() {}, sites: c18Sites,
 		flowRep: map[string]string{"log": c18SiteLog, "recovery": c18SiteRecov, "sampling": c18SiteGetter, "coordinator": c18SiteEvents},
 		flowOf: map[string]string{c18SiteLog: "log", c18SiteRecov: "recovery", c18SiteGetter: "sampling", c18SiteEvents: "coordinator",
-			c18SitePipeline: "pipeline", c18SitePost: "post", c18SiteGC: "resultStore"}}
+			c18SitePipeline: "pipeline", c18SitePost: "post", c18SiteGC: "resultStore",
+			c18SiteTGDequeue: "final", c18SiteTGMetadata: "recovery", c18SiteTGCoord: "pre-processing"}}
+}
+
+// c18TypeGetter wraps the repository's upkeep type getter: a call is attributed to the place it comes from (innermost
+// frame of the stores / coordinator) and is a fault site there; calls from the plugin's foreground methods are not.
+func c18TypeGetter(p *c18Probe) func(ocr2keepers.UpkeepIdentifier) types.UpkeepType {
+	return func(id ocr2keepers.UpkeepIdentifier) types.UpkeepType {
+		var pcs [12]uintptr
+		n := runtime.Callers(2, pcs[:])
+		frames := runtime.CallersFrames(pcs[:n])
+		for {
+			fr, more := frames.Next()
+			switch {
+			case strings.Contains(fr.Function, "proposalQueue).Dequeue"):
+				p.hit(c18SiteTGDequeue)
+				return utg(id)
+			case strings.Contains(fr.Function, "stores.(*metadataStore)"):
+				p.hit(c18SiteTGMetadata)
+				return utg(id)
+			case strings.Contains(fr.Function, "coordinator.(*coordinator)"):
+				p.hit(c18SiteTGCoord)
+				return utg(id)
+			}
+			if !more {
+				break
+			}
+		}
+		return utg(id)
+	}
 }
 
 type c18Node struct {
+	Round  func(seq uint64) error // one OCR3 Observation call of the instance under test, with a previous outcome that surfaces fresh proposals
 	Close  func() error
 	First  map[string]int
 	Probe  *c18Probe
@@ -408,18 +525,68 @@ func newC18Node(t testing.TB, in c18Input) *c18Node {
 	pr := newC18Probe(in.PanicSite, in.PanicAtCall, in.PanicCount, in.CoolDownNs)
 	pr.setHold(in.HoldSite, in.HoldAtCall, in.HoldNs)
 	n := &c18Node{Probe: pr, Blocks: &fakeBlocks{}}
+	rc := runner.RunnerConfig{Workers: 4, WorkerQueueLength: 100, CacheExpire: 20 * time.Minute, CacheClean: 30 * time.Second}
+	if r := in.Runner; r != nil {
+		rc = runner.RunnerConfig{Workers: r.Workers, WorkerQueueLength: r.QueueLength, CacheExpire: time.Duration(r.CacheExpireNs), CacheClean: time.Duration(r.CacheCleanNs)}
+	}
+	tg := c18TypeGetter(pr)
+	// the repeating work: fixed upkeeps and logs (=> fixed work ids), known to the log provider, to the transmit event
+	// provider (which reports them as performed once the rounds have accepted a report for them) and to the rounds
+	lp := &c18LogProvider{p: pr, work: in.Work, repeat: in.RepeatWork, rng: NewRng(77)}
+	ev := &c18Events{p: pr}
+	var repeated []ocr2keepers.CheckResult
+	if in.RepeatWork {
+		for i := 0; i < in.Work; i++ {
+			uid := genUpkeepID(lp.rng, true)
+			lp.ids = append(lp.ids, uid)
+			trig := ocr2keepers.Trigger{BlockNumber: 100, BlockHash: [32]byte{9}, LogTriggerExtension: &ocr2keepers.LogTriggerExtension{
+				TxHash: [32]byte{byte(i + 1)}, Index: uint32(i), BlockHash: [32]byte{8}, BlockNumber: 99}}
+			wid := wg(uid, trig)
+			repeated = append(repeated, ocr2keepers.CheckResult{Eligible: true, UpkeepID: uid, Trigger: trig, WorkID: wid, GasAllocated: 1, PerformData: []byte{1}, FastGasWei: c18BigOne, LinkNative: c18BigOne})
+			if in.Rounds {
+				ev.perform = append(ev.perform, ocr2keepers.TransmitEvent{Type: ocr2keepers.PerformEvent, TransmitBlock: 101, Confirmations: 1 << 40,
+					TransactionHash: [32]byte{7, byte(i)}, UpkeepID: uid, WorkID: wid, CheckBlock: 100})
+			}
+		}
+	}
 	fac := plugin.NewReportingPluginFactory(
-		&c18LogProvider{p: pr, work: in.Work, rng: NewRng(77)}, &c18Events{p: pr}, n.Blocks, &c18Recov{p: pr}, fakeBuilder{}, &c18Getter{p: pr},
-		&c18Pipeline{p: pr, latency: time.Duration(in.LatencyNs), honorCtx: in.HonorCtx, ineligible: in.Ineligible},
-		runner.RunnerConfig{Workers: 4, WorkerQueueLength: 100, CacheExpire: 20 * time.Minute, CacheClean: 30 * time.Second},
-		&recEncoder{}, utg, wg, &c18StateUpdater{p: pr}, log.New(&c18LogWriter{p: pr}, "", 0))
+		lp, ev, n.Blocks,
+		&c18Recov{p: pr, work: in.Rounds, rng: NewRng(78)}, fakeBuilder{}, &c18Getter{p: pr},
+		&c18Pipeline{p: pr, shape: in.Shape, latency: time.Duration(in.LatencyNs), honorCtx: in.HonorCtx, ineligible: in.Ineligible},
+		rc, &recEncoder{}, tg, wg, &c18StateUpdater{p: pr}, log.New(&c18LogWriter{p: pr}, "", 0))
+	var cur ocr3types.ReportingPlugin[plugin.AutomationReportInfo]
 	n.Close, n.First = c18Build(in, pr, func(cfg string) func() error {
 		p, _, err := fac.NewReportingPlugin(context.Background(), ocr3types.ReportingPluginConfig{N: 4, F: 1, OffchainConfig: []byte(cfg)})
 		if err != nil {
 			t.Fatalf("NewReportingPlugin: %v", err)
 		}
+		cur = p
 		return p.Close
 	})
+	rng := NewRng(79)
+	n.Round = func(seq uint64) error {
+		// what libocr does once per round on the open instance: Observation with the previous outcome; that outcome surfaces one
+		// fresh conditional and one fresh log proposal, which the hook enqueues for the two final flows
+		var props []ocr2keepers.CoordinatedBlockProposal
+		for _, logType := range []bool{false, true} {
+			uid := genUpkeepID(rng, logType)
+			res := genResult(rng, uid, 300+seq)
+			props = append(props, ocr2keepers.CoordinatedBlockProposal{UpkeepID: uid, Trigger: res.Trigger, WorkID: res.WorkID})
+		}
+		raw, err := ocr2keepersv3.AutomationOutcome{AgreedPerformables: []ocr2keepers.CheckResult{}, SurfacedProposals: [][]ocr2keepers.CoordinatedBlockProposal{props}}.Encode()
+		if err != nil {
+			return err
+		}
+		if _, err = cur.Observation(context.Background(), ocr3types.OutcomeContext{SeqNr: seq, PreviousOutcome: raw}, nil); err != nil {
+			return err
+		}
+		if len(repeated) > 0 {
+			// … and a report for the repeating work is accepted: the coordinator tracks it, the event provider reports the perform
+			rep, _ := json.Marshal(repeated)
+			_, err = cur.ShouldAcceptAttestedReport(context.Background(), seq, ocr3types.ReportWithInfo[plugin.AutomationReportInfo]{Report: rep})
+		}
+		return err
+	}
 	return n
 }
 
@@ -521,6 +688,25 @@ func c18Goroutines() (classes map[string]int, detail map[string]int) {
 		detail[inner]++
 	}
 	return classes, detail
+}
+
+// c18CountStacks counts the goroutines of the repository whose stack mentions one of the given functions
+func c18CountStacks(subs ...string) int {
+	buf := make([]byte, 1<<22)
+	buf = buf[:runtime.Stack(buf, true)]
+	n := 0
+	for _, g := range strings.Split(string(buf), "\n\n") {
+		if !strings.Contains(g, "chainlink-automation/pkg/") {
+			continue
+		}
+		for _, sub := range subs {
+			if strings.Contains(g, sub) {
+				n++
+				break
+			}
+		}
+	}
+	return n
 }
 
 func c18SortedKeys(m map[string]int) []string {
